@@ -215,6 +215,11 @@ func (a *TCPAllocation) DialTCPWithConn(conn net.Conn, _ string, rAddr *net.TCPA
 		}
 	}
 	if err != nil {
+		if errors.Is(err, errTryAgain) {
+			// Retries used up: leave nothing behind, as for any other failure.
+			a.permMap.delete(rAddr)
+		}
+
 		return nil, err
 	}
 
